@@ -201,7 +201,20 @@ func c12Run(kind string, ncommon int, limitSpec string, seq []int, reps int) (st
 	if rcl != "" {
 		return rcl, rdet, steps
 	}
-	dgs := s.drain(1)
+	countUser := func(dgs [][]byte) int {
+		n := 0
+		for _, dg := range dgs {
+			if msg, err := decodeMessage(kind, dg); err == nil {
+				for _, m := range msg.Batch.Metrics {
+					if !strings.HasPrefix(m.Name, "tally.internal") {
+						n++
+					}
+				}
+			}
+		}
+		return n
+	}
+	dgs := s.drainUntil(func(d [][]byte) bool { return countUser(d) >= len(want) })
 	var got []string
 	for i, dg := range dgs {
 		if int32(len(dg)) > limit {
